@@ -248,8 +248,9 @@ var solvers = []solverDef{
 	}},
 }
 
-// solve races the installed solvers on the query text. wantModel adds
-// (get-model) for the sat case.
+// solve decides one query: z3 5.1 alone first with a short budget (it
+// decides almost everything in well under a second), then all installed
+// solvers raced with the full timeout.
 func solve(query string, timeoutS int, which []string, keepFile string) SolverResult {
 	dir, err := os.MkdirTemp("", "govc-q")
 	if err != nil {
@@ -265,11 +266,26 @@ func solve(query string, timeoutS int, which []string, keepFile string) SolverRe
 		os.MkdirAll(filepath.Dir(keepFile), 0o755)
 		os.WriteFile(keepFile, []byte(full), 0o644)
 	}
+	start := time.Now()
+	first := 3
+	if timeoutS < first {
+		first = timeoutS
+	}
+	if len(which) == 0 || contains(which, "z3-new") {
+		r := runSolvers(file, first, []string{"z3-new"})
+		if r.Status != "unknown" {
+			r.Seconds = time.Since(start).Seconds()
+			return r
+		}
+	}
+	r := runSolvers(file, timeoutS, which)
+	r.Seconds = time.Since(start).Seconds()
+	return r
+}
+
+func runSolvers(file string, timeoutS int, which []string) SolverResult {
 	ctx, cancel := context.WithCancel(context.Background())
 	defer cancel()
-	type res struct {
-		SolverResult
-	}
 	ch := make(chan SolverResult, len(solvers))
 	n := 0
 	for _, s := range solvers {
